@@ -162,6 +162,8 @@ type ExploreConfig struct {
 	SigLabels []string
 	// HangIsViolation: exceeding the step limit is reported as a hang
 	HangIsViolation bool
+	// DepthIsViolation: exceeding the call-depth limit is reported as stack exhaustion
+	DepthIsViolation bool
 }
 
 // pathCtx is the per-path symbolic state.
@@ -193,6 +195,8 @@ type pathCtx struct {
 	mapOrder                                             int
 	approx                                               int64
 	ufCache                                              map[string]*Term
+	jsonSent                                             map[int64]*Term
+	jsonSentRev                                          map[*Term]int64
 	top                                                  *frame
 	bsets                                                map[string]*byteSet
 	inexact                                              map[string]bool
